@@ -49,8 +49,34 @@ def has_backslash(tokens):
     return False
 
 
+def bracket_cover(tokens):
+    """how a bracket expression of the pattern relates to the separators: 'literal-slash' (an unescaped / written inside), 'range' (a range or
+    POSIX class that happens to contain / or \\ without writing them), 'none'"""
+    out = 'none'
+    for t in tokens:
+        if t[0] == 'br':
+            for it in t[2]:
+                if it[0] == 'ch' and it[1] == '/':
+                    return 'literal-slash'
+                if it[0] == 'rng' and (ord(it[1]) <= 47 <= ord(it[2]) or ord(it[1]) <= 92 <= ord(it[2])):
+                    out = 'range'
+                if it[0] == 'posix' and it[1] in ('punct', 'graph', 'print'):
+                    out = 'range'
+            if t[1] and out == 'none':
+                out = 'range'          # a negated bracket contains both separators unless it excludes them
+        elif t[0] == 'ext':
+            for a in t[2]:
+                c = bracket_cover(a)
+                if c == 'literal-slash':
+                    return c
+                if c != 'none':
+                    out = c
+    return out
+
+
 def item(args):
-    els, kind, is_bytes = args
+    els, kind, is_bytes = args[:3]
+    cover = args[3] if len(args) > 3 else (bracket_cover(els) if not isinstance(els, str) else 'none')
     api = F if kind == 'fnmatch' else G
     raw = isinstance(els, str)          # raw pattern text: only the obligations that do not need the token structure
     txt = els if raw else P.render(els)
@@ -70,7 +96,7 @@ def item(args):
             out.append(('proved', name, None))
         else:
             w = R.to_str(r[0], is_bytes)
-            out.append(('refuted', name, dict(pattern=txt, mode=kind, bytes=is_bytes, witness=w, note=note, flags=replay_flags)))
+            out.append(('refuted', name, dict(pattern=txt, mode=kind, bytes=is_bytes, witness=w, note=note, flags=replay_flags, bracket=cover)))
     try:
         ins = rx(pt, base | W.IGNORECASE | W.FORCEUNIX)
         cmp('C17.lang.insensitive_mode_closed_under_ASCII_case_of_the_name', ins, R.Mapped(ins, lower, range(65, 91)), base | W.IGNORECASE | W.FORCEUNIX, 'name vs lower(name)')
@@ -155,7 +181,8 @@ def run(chk, tier, seed):
     items = [(p, 'fnmatch', False) for p in names] + [(p, 'glob', False) for p in paths] + [(p, 'fnmatch', True) for p in names[::5]] + [(p, 'glob', True) for p in paths[::3]]
     # raw texts: escaped backslashes inside bracket expressions (a separator under the Windows rules), mixed with case
     rawtexts = ['a[\\\\]b', 'a[xY\\\\]b', 'a[!\\\\]b', '[\\\\a]*', 'a[\\\\][\\\\]b', '?(a[\\\\])B', 'a\\\\b', 'a[/]b', 'a[!/]b']
-    items += [(t, 'fnmatch', False) for t in rawtexts] + [(t, 'fnmatch', True) for t in rawtexts[:3]] + [(t, 'glob', False) for t in rawtexts]
+    cov = lambda t: 'literal-slash' if '[/' in t or '[!/' in t else 'none'      # noqa: E731
+    items += [(t, 'fnmatch', False, cov(t)) for t in rawtexts] + [(t, 'fnmatch', True, cov(t)) for t in rawtexts[:3]] + [(t, 'glob', False, cov(t)) for t in rawtexts]
     if tier != 'quick':
         g = P.Gen(seed + 170, alphabet='aAbB.c', path=True)
         items += [(g.name_pattern(5, 2), 'fnmatch', False) for _ in range(3000)] + [(g.path_pattern(3, 3, 1), 'glob', False) for _ in range(3000)]
@@ -215,6 +242,6 @@ def report(chk, name, info):
     pt = info['pattern'].encode('latin-1') if info['bytes'] else info['pattern']
     w = info['witness']
     alt = (w.lower() if 'case' in name or 'CASE' in name else (w.replace(b'\\', b'/') if isinstance(w, bytes) else w.replace('\\', '/')))
-    chk.violation(dict(obligation=name, pattern=info['pattern'], mode=info['mode'], witness=w, note=info['note']),
+    chk.violation(dict(obligation=name, pattern=info['pattern'], mode=info['mode'], witness=w, note=info['note'], bracket=info.get('bracket', 'none')),
                   f'{name}: pattern {info["pattern"]!r} ({info["mode"]}): witness name {w!r} ({info["note"]})',
                   f"import sys; sys.path.insert(0, {REPO!r})\nfrom wcmatch import fnmatch, glob\nprint({api}({w!r}, {pt!r}, flags={info['flags']}), {api}({alt!r}, {pt!r}, flags={info['flags']}))\nsys.exit(1)\n")
